@@ -38,7 +38,11 @@ static void sym_header_fill(LHAFileHeader *h, const u8 *path, const u8 *name, co
 	h->filename = (have_name & 1) ? sh_name : NULL;
 	h->symlink_target = (have_target & 1) ? sh_target : NULL;
 	h->unix_username = sh_user; h->unix_group = sh_group;
+#ifdef SYM_METHOD_ANY
+	for (i = 0; i < 5; ++i) h->compress_method[i] = (char) method[i];          /* 0x00 included: a shorter method string */
+#else
 	for (i = 0; i < 5; ++i) { ASSUME(method[i] != 0); h->compress_method[i] = (char) method[i]; }
+#endif
 	h->compress_method[5] = '\0';
 	h->extra_flags = flags; h->unix_perms = perms; h->os9_perms = os9; h->unix_uid = uid; h->unix_gid = gid;
 	h->compressed_length = (size_t) clen; h->length = (size_t) len; h->crc = crc; h->timestamp = ts;
